@@ -1389,9 +1389,25 @@ func (a *Analysis) spuriousRejections(paths []*Path, rootGeneric bool) []string 
 // hasFuncParam: the function takes a parameter of function type (other than a factory `func() T` without parameters
 // that only builds a value).
 func hasFuncParam(fn *ssa.Function) bool {
+	isStep := func(t types.Type) bool {
+		sig, ok := t.Underlying().(*types.Signature)
+		return ok && sig.Params().Len() > 0
+	}
 	for _, p := range fn.Params {
-		if sig, ok := p.Type().Underlying().(*types.Signature); ok && sig.Params().Len() > 0 {
+		if isStep(p.Type()) {
 			return true
+		}
+		// a descriptor record whose fields are the steps (`FrameSpec{Header: func(buf) error {…}, …}`)
+		t := p.Type()
+		if pt, ok := t.Underlying().(*types.Pointer); ok {
+			t = pt.Elem()
+		}
+		if st, ok := t.Underlying().(*types.Struct); ok {
+			for i := 0; i < st.NumFields(); i++ {
+				if isStep(st.Field(i).Type()) {
+					return true
+				}
+			}
 		}
 	}
 	return false
